@@ -95,3 +95,7 @@ install(globals(), 'C02', view, oracle,
 from harness import dynfamily as _dyn             # noqa: E402
 from harness.mixins import add_family as _add_family   # noqa: E402
 _add_family(globals(), _dyn, 'dyn', _dyn.oracle_intervals, share=0.1)
+
+# an adaptive timestep inside a parallel worker: the timesteps handed are the ones requested
+from harness import adaptpar as _ap                # noqa: E402
+_add_family(globals(), _ap, 'adaptpar', _ap.oracle, share=0.02)
